@@ -576,6 +576,23 @@ class FlowGen:
         cond = self.cond(vars_) if ch.bool(0.6) else None
         if cond is not None:
             self.features.add("comprehension-if")
+            k = ch.int(0, 3)
+            if k == 1:
+                # a condition whose evaluation is observable: it is tested
+                # once per candidate element, as in the explicit loop, also
+                # when it does not mention every loop variable
+                cond = call("chk", ("int", self.tag()), cond)
+                self.features.add("comprehension-if-logs")
+            elif k == 2:
+                # a condition that reads state the element expression and
+                # the condition itself change: its outcome is not a function
+                # of the loop variables
+                state = ("cmp", [("bin", "%", call("length", ("var", "trace")),
+                                  ("int", ch.int(2, 3))), ("int", 0)],
+                         [ch.choice(["==", "!="])])
+                cond = call("chk", ("int", self.tag()), state) \
+                    if ch.bool() else state
+                self.features.add("comprehension-if-reads-state")
         names = list(vars_)
         value = ("list", [("var", n) for n in names]) if ch.bool() else \
             ("var", names[-1])
